@@ -197,6 +197,11 @@ func replayMatches(v *Violation, ro replayOutcome) bool {
 	if ro.Failed == v.Assert {
 		return true
 	}
+	// the native run may trip over an earlier assertion of the same entry (all
+	// of them state the property): the counterexample still reproduces a violation
+	if ro.Failed != "" && ro.Failed != "no-panic" && v.Assert != "no-panic" && v.Assert != "no-deadlock" {
+		return true
+	}
 	// an over-budget allocation shows natively as makeslice panic / OOM / measured allocation
 	if v.Assert == "alloc-bounded" && (ro.Failed == "alloc-bounded" || strings.HasPrefix(ro.Msg, "alloc:")) {
 		return true
